@@ -3,8 +3,11 @@
 
 def alg_units(p):
     sh = [{"quick": 8, "thorough": 16}, {"quick": 4, "thorough": 8}, {"quick": 2, "thorough": 8}, {"quick": 2, "thorough": 8}]
-    return [{"name": f"alg{p}_{n}", "src": "harness/alg.cpp", "defs": [f"-DTS={i}", f"-DPROP={p}"], "flavor": "asan", "shards": sh[i]}
-            for i, n in enumerate(["d", "f", "b1", "b2"])]
+    units = [{"name": f"alg{p}_{n}", "src": "harness/alg.cpp", "defs": [f"-DTS={i}", f"-DPROP={p}"], "flavor": "asan", "shards": sh[i]}
+             for i, n in enumerate(["d", "f", "b1", "b2"])]
+    units.append({"name": f"alg{p}_x", "src": "harness/alg.cpp", "defs": ["-DTS=4", f"-DPROP={p}"], "flavor": "asan",
+                  "shards": {"quick": 4, "thorough": 8}, "tiers": ["thorough"]})
+    return units
 
 
 ORACLE_ASSUMPTIONS = [
